@@ -86,6 +86,9 @@ class FieldArrayModel(FieldCompositeModel):
         self.sum_expr_btor = None
         self.product_expr_btor = None
         
+        # Remember the length the list has when the call starts
+        self._call_len = len(self.field_l)
+        
         # Set the size field for arrays that don't
         # have a random size
         if self.is_rand_sz:
@@ -102,6 +105,21 @@ class FieldArrayModel(FieldCompositeModel):
         self.product_expr_btor = None
         
         self.trim_to_size()
+        
+    def abort_randomize(self):
+        """Called when a call ends with an exception"""
+        call_len = getattr(self, "_call_len", None)
+        if self.is_rand_sz and self.is_scalar and call_len is not None:
+            # Drop the elements the list was padded with for the call
+            if call_len < len(self.field_l):
+                del self.field_l[call_len:]
+                self._set_size(len(self.field_l))
+        self.sum_expr_btor = None
+        self.product_expr_btor = None
+        
+    def dispose(self):
+        super().dispose()
+        self.size.dispose()
         
     def trim_to_size(self):
         if self.is_rand_sz and self.is_scalar:
